@@ -199,6 +199,78 @@ def run(ck):
     ck.floor("SYM", "instructions with agreeing immediate layout", nmatch, 92)
     ck.extra["layout_not_decided"] = skipped
 
+    # a dynamic register is recycled only after a scan shows no other operand-stack slot still refers to it
+    cf = getfn(ck, "sc", W, W + "::artifact::ProvidersStack::consume")
+    if cf:
+        reuse = cf.calls(r"DynamicLocations::reuse$|::reuse$")
+        scans = [(bi, t) for (bi, t) in cf.calls(r"Iterator::(all|any)$|::contains$") if ("field", "stack") in cf.origins(t["args"][0], deep=True)]
+        ok = len(reuse) >= 1 and len(scans) >= 1
+        if ok:
+            for (rb, rt) in reuse:
+                g = False
+                for (sb, st) in scans:
+                    r = rules.enforcement(cf, sb, extra_fail=("bool", 0 if st["f"]["name"] == "all" else 1))
+                    # the recycling site must be unreachable from the branch where the scan found another reference
+                    sw = r.get("switch")
+                    if sw is not None:
+                        stt = cf.term(sw)
+                        failv = "0" if st["f"]["name"] == "all" else "1"
+                        ft = [tb for v, tb in stt["t"] if v == failv]
+                        ft = ft[0] if ft else stt["o"]
+                        if cf.dominates(sw, rb) and rb not in cf.reach_from([ft], avoid={sw}):
+                            g = True
+                ok = ok and g
+        ck.ob("DOM", cf.path, "recycle-only-unreferenced-register", ok,
+              "the register is handed back for reuse only on the branch where no remaining stack slot equals it" if ok else
+              "a consumed register is recycled without checking that no other stack slot still refers to it (preserved locals can be overwritten)", cf.loc())
+
+    # a value written BEFORE a conditional branch (speculatively) must go to a register dedicated to the branch target,
+    # never to a register that is also a Wasm local: if the branch is not taken the local would be clobbered
+    pb = getfn(ck, "sc", W, W + "::artifact::BackPatch::push_br_if_jump")
+    if pb:
+        pushes = [(bi, t, opname(pb, t["args"][1])) for (bi, t) in pb.calls(r"artifact::Instructions::push$")]
+        copies = [(bi, t) for (bi, t, o) in pushes if o == "Copy"]
+        brifs = [(bi, t) for (bi, t, o) in pushes if o == "BrIf"]
+        speculative = bool(copies) and bool(brifs) and all(pb.reach_from([cb]) & {bb for (bb, _) in brifs} for (cb, _) in copies)
+        dst_from_target = False
+        for (cb, _) in copies:
+            locs = [(bi, t) for (bi, t) in pb.calls(r"BackPatch::push_loc$") if pb.dominates(cb, bi)]
+            for (bi, t) in locs:
+                o = pb.origins(t["args"][1], deep=True)
+                if ("field", "result") in o or has_call_origin(o, r"BackPatchStack::get$"):
+                    dst_from_target = True
+        local_results = []
+        for pth in sorted(c.paths()):
+            for b in c.get_all(pth):
+                g = Fn(b)
+                for (bi, t) in g.calls(r"artifact::JumpTarget::new_unknown(_loc)?$"):
+                    for a in t["args"]:
+                        o = g.origins(a, deep=True)
+                        hit = any(x[0] == "const" and x[1].endswith("RETURN_VALUE_LOCATION") for x in o) or any(x[0] in ("cval", "agg") and "Provider::Local" in x[1] for x in o)
+                        if not hit and has_call_origin(o, r"Option::<T>::map$"):
+                            # the value is produced by a closure of this function
+                            for q in c.paths():
+                                if q.startswith(pth + "::{closure"):
+                                    for cb2 in c.get_all(q):
+                                        h = Fn(cb2)
+                                        oo = h.origins(0, deep=True)
+                                        if any(x[0] == "const" and x[1].endswith("RETURN_VALUE_LOCATION") for x in oo) or any(x[0] in ("cval", "agg") and "Provider::Local" in x[1] for x in oo):
+                                            hit = True
+                        if hit:
+                            local_results.append("%s (%s)" % (pth.split("::")[-1], g.loc(bi)))
+                for bi in g.reachable():
+                    for s2 in g.stmts(bi):
+                        rv = s2.get("rv", {})
+                        if rv.get("k") == "agg" and rv.get("adt", "").endswith("artifact::JumpTarget") and rv.get("variant") == "Unknown" and not pth.endswith(("new_unknown", "new_unknown_loc")):
+                            i = rv["fields"].index("result") if "result" in rv["fields"] else None
+                            if i is not None and any(x[0] == "const" and x[1].endswith("RETURN_VALUE_LOCATION") for x in g.origins(rv["ops"][i], deep=True)):
+                                local_results.append("%s (%s)" % (pth.split("::")[-1], g.loc(bi)))
+        ok = not (speculative and dst_from_target and local_results)
+        ck.ob("DEFUSE", pb.path, "speculative-copy-never-targets-a-local", ok,
+              "no branch target's result register is a Wasm local, or br_if does not copy before the test" if ok else
+              "br_if copies the carried value into the target's result register before the branch is decided, and the function-level target's "
+              "result register is RETURN_VALUE_LOCATION = Local(0) (set in %s): when the branch is not taken, local 0 has been overwritten" % local_results[:2], pb.loc())
+
     # numeric operators
     spec = json.load(open(SPEC))["instructions"]
     nn = 0
